@@ -185,6 +185,12 @@ def _worker(job):
     r['wall_s'] = time.time() - t0
     return r
 
+def run_cases_simple(fn, jobs, procs=16):
+    if not jobs:
+        return []
+    with multiprocessing.Pool(min(procs, len(jobs))) as pool:
+        return pool.map(fn, jobs, chunksize=1)
+
 def run_cases(fn, cases, procs=None):
     procs = procs or min(16, os.cpu_count() or 1, max(1, len(cases)))
     if procs == 1 or len(cases) <= 1:
